@@ -1,6 +1,6 @@
 import NodisVerif.Proofs.C16Handlers
 /-
-  C16, handler level, part 2: SET, MSET, KEYS, SCAN, MGET (partial + finding), `table1_one_reply`.
+  C16, handler level, part 2: SET, MSET, KEYS, SCAN, MGET, `table1_one_reply`.
 -/
 namespace NodisVerif.Proofs.C16Handlers
 open NodisVerif NodisVerif.Resp NodisVerif.Handler
@@ -35,7 +35,7 @@ theorem scan_out (s : MState) (now cursor : Int) (pat : Bytes) (count : Int) (ty
   · exact ⟨_, _, rfl⟩
   · split
     · exact ⟨_, _, rfl⟩
-    · generalize Api.scan.go now pat typ _ _ _ _ _ _ _ = r
+    · generalize Api.scan.go now pat typ _ _ _ _ _ _ = r
       obtain ⟨a, b, c⟩ := r
       exact ⟨_, _, rfl⟩
 
@@ -146,48 +146,29 @@ theorem one_reply_scan (args : List Bytes) : OneReply (Handler.scan args) := by
 
 /-! ## MGET
 
-  Full-strength statement (FALSE in the model, see `one_reply_mGet_finding`):
-      theorem one_reply_mGet (args : List Bytes) : OneReply (Handler.mGet args)
-  MGET writes the array header `*n` first and then one element per key; a key of the wrong type
-  panics in `Api.get` after `j` elements have been written, and the recovered panic appends one
-  error.  The reply `*n, e₁ … e_j, -WRONGTYPE` is one value iff `j = n - 1`. -/
-
-/-- position of the first key whose `Api.get` panics, in the running store -/
-def mGetPanicAt (now : Int) : List Bytes → MState → Option Nat
-  | [], _ => none
-  | k :: rest, s =>
-    match Api.get s now k with
-    | (_, .panic) => some 0
-    | (s', _) => (mGetPanicAt now rest (commit s')).map (· + 1)
-
-/-- the finding region's complement: no operand panics, or only the last one does -/
-def MGetOK (args : List Bytes) (s : MState) (now : Int) : Prop :=
-  mGetPanicAt now args s = none ∨ mGetPanicAt now args s = some (args.length - 1)
-
-instance (args : List Bytes) (s : MState) (now : Int) : Decidable (MGetOK args s now) := by
-  unfold MGetOK; infer_instance
+  MGET reads every key first and writes the array only at the end: a key of the wrong type panics in
+  `Api.get` before anything has been written, and the recovered panic writes the single error. -/
 
 theorem scalar_optBulk (b : Option Bytes) : isScalar (optBulk b) = true := by
   cases b <;> rfl
 
-/-- what the loop writes: the accumulated tokens plus one scalar per key up to the panic -/
-theorem mGet_go_spec (now : Int) : ∀ (ks : List Bytes) (s : MState) (acc : List Tok),
-    match mGetPanicAt now ks s with
-    | none => (mGet.go now ks s acc).panicked = false ∧
-        ∃ xs : List Tok, xs.length = ks.length ∧ (∀ t ∈ xs, isScalar t = true) ∧
-          (mGet.go now ks s acc).toks = acc ++ xs
-    | some j => (mGet.go now ks s acc).panicked = true ∧ j < ks.length ∧
-        ∃ xs : List Tok, xs.length = j ∧ (∀ t ∈ xs, isScalar t = true) ∧
-          (mGet.go now ks s acc).toks = acc ++ xs := by
+/-- the loop invariant: `acc` holds one scalar token per key processed so far (the third alternative
+    of the `match` is dead by `get_out`, so the count is never off) -/
+theorem good_mGet_go (args : List Bytes) (now : Int) : ∀ (ks : List Bytes) (s : MState) (acc : List Tok),
+    (∀ t ∈ acc, isScalar t = true) → acc.length + ks.length = args.length →
+    Good (mGet.go args now ks s acc) := by
   intro ks
   induction ks with
   | nil =>
-    intro s acc
-    rw [mGetPanicAt, mGet.go]
-    exact ⟨rfl, [], rfl, by simp, by simp [done]⟩
+    intro s acc hs hl
+    rw [mGet.go]
+    apply good_done
+    have hlen : args.length = acc.length := by simpa using hl.symm
+    rw [hlen]
+    exact oneValue_arr_scalars acc hs
   | cons k rest ih =>
-    intro s acc
-    rw [mGetPanicAt, mGet.go]
+    intro s acc hs hl
+    rw [mGet.go]
     have hg := get_out s now k
     generalize Api.get s now k = r at hg
     obtain ⟨s', o⟩ := r
@@ -195,151 +176,48 @@ theorem mGet_go_spec (now : Int) : ∀ (ks : List Bytes) (s : MState) (acc : Lis
     · dsimp only at hb
       subst hb
       dsimp only
-      have := ih (commit s') (acc ++ [optBulk b])
-      cases hpa : mGetPanicAt now rest (commit s') with
-      | none =>
-        rw [hpa] at this
-        obtain ⟨h1, xs, hl, hs, ht⟩ := this
-        refine ⟨h1, optBulk b :: xs, by simp [hl], ?_, by rw [ht]; simp⟩
-        intro t ht'
-        cases ht' with
-        | head => exact scalar_optBulk b
-        | tail _ h' => exact hs t h'
-      | some j =>
-        rw [hpa] at this
-        obtain ⟨h1, hj, xs, hl, hs, ht⟩ := this
-        refine ⟨h1, by simp only [List.length_cons]; omega, optBulk b :: xs, by simp [hl], ?_, by rw [ht]; simp⟩
-        intro t ht'
-        cases ht' with
-        | head => exact scalar_optBulk b
-        | tail _ h' => exact hs t h'
+      apply ih
+      · intro t ht
+        rw [List.mem_append] at ht
+        rcases ht with h' | h'
+        · exact hs t h'
+        · simp only [List.mem_cons, List.mem_nil_iff, or_false] at h'
+          subst h'
+          exact scalar_optBulk b
+      · simp only [List.length_append, List.length_cons, List.length_nil] at hl ⊢
+        omega
     · dsimp only at hp
       subst hp
       dsimp only
-      exact ⟨rfl, by simp, [], rfl, by simp, by simp⟩
+      exact good_panic_nil _
 
-/-- exact characterisation: the MGET closure's reply is one value iff no operand panics or only the
-    last one does -/
-theorem mGet_go_oneValue_iff (now : Int) (args : List Bytes) (s : MState) :
-    oneValue (replyOf (mGet.go now args s [Tok.arr args.length])) = true ↔ MGetOK args s now := by
-  have hspec := mGet_go_spec now args s [Tok.arr args.length]
-  unfold MGetOK
-  cases hpa : mGetPanicAt now args s with
-  | none =>
-    rw [hpa] at hspec
-    obtain ⟨h1, xs, hl, hs, ht⟩ := hspec
-    simp only [true_or, iff_true]
-    unfold replyOf
-    rw [h1, ht]
-    simp only [Bool.false_eq_true, if_false, List.cons_append, List.nil_append]
-    rw [← hl]
-    exact oneValue_arr_scalars xs hs
-  | some j =>
-    rw [hpa] at hspec
-    obtain ⟨h1, hj, xs, hl, hs, ht⟩ := hspec
-    unfold replyOf
-    rw [h1, ht]
-    simp only [if_true, List.cons_append, List.nil_append, reduceCtorEq, false_or, Option.some.injEq]
-    by_cases hlast : j = args.length - 1
-    · simp only [hlast, iff_true]
-      have hlen : (args.length : Int) = ((xs ++ [Tok.err 1]).length : Nat) := by
-        simp only [List.length_append, List.length_cons, List.length_nil]; omega
-      rw [hlen]
-      apply oneValue_arr_scalars
-      intro t ht'
-      rw [List.mem_append] at ht'
-      rcases ht' with h' | h'
-      · exact hs t h'
-      · simp only [List.mem_cons, List.mem_nil_iff, or_false] at h'; subst h'; rfl
-    · have : oneValue (Tok.arr args.length :: (xs ++ [Tok.err 1])) = false := by
-        apply oneValue_arr_short
-        simp only [List.length_append, List.length_cons, List.length_nil]
-        omega
-      rw [this]
-      simp [hlast]
-
-/-- `OneReply` restricted to the (store, clock) pairs satisfying `P` -/
-def OneReplyOn (P : MState → Int → Prop) : HRes → Prop
-  | .direct ts => oneValue ts = true
-  | .exec b => ∀ (s : MState) (now : Int) (ch : Choice), P s now → oneValue (replyOf (b s now ch)) = true
-  | .crash => True
-
-/-- MGET outside the finding region: every argument vector, every store and clock in which no
-    operand other than the last one is of the wrong type -/
-theorem one_reply_mGet_partial (args : List Bytes) : OneReplyOn (MGetOK args) (Handler.mGet args) := by
+theorem one_reply_mGet (args : List Bytes) : OneReply (Handler.mGet args) := by
   unfold Handler.mGet
   split
   · exact oneReply_errReply
-  · intro s now ch h
-    exact (mGet_go_oneValue_iff now args s).2 h
+  · intro s now ch
+    exact good_mGet_go args now args s [] (by simp) (by simp)
 
-/-- MGET inside the finding region: the reply is NOT one value -/
-theorem one_reply_mGet_region (args : List Bytes) (hne : args ≠ []) (s : MState) (now : Int) (ch : Choice)
-    (h : ¬ MGetOK args s now) :
-    ∃ b, Handler.mGet args = HRes.exec b ∧ oneValue (replyOf (b s now ch)) = false := by
-  unfold Handler.mGet
-  have : args.isEmpty = false := by cases args <;> simp_all
-  rw [if_neg (by simp [this])]
-  refine ⟨_, rfl, ?_⟩
-  cases hc : oneValue (replyOf (mGet.go now args s [Tok.arr args.length])) with
-  | false => rfl
-  | true => exact absurd ((mGet_go_oneValue_iff now args s).1 hc) h
-
-/-- weaker, hypothesis-on-the-run form: a MGET closure that does not panic writes one value -/
-theorem one_reply_mGet_nopanic (args : List Bytes) (s : MState) (now : Int)
-    (h : (mGet.go now args s [Tok.arr args.length]).panicked = false) :
-    oneValue (replyOf (mGet.go now args s [Tok.arr args.length])) = true := by
-  apply (mGet_go_oneValue_iff now args s).2
-  left
-  have hspec := mGet_go_spec now args s [Tok.arr args.length]
-  cases hpa : mGetPanicAt now args s with
-  | none => rfl
-  | some j => rw [hpa] at hspec; rw [hspec.1] at h; cases h
-
-/-- the witness store: the reachable store after `LPUSH a x` on the empty store -/
+/-- a sample store: the reachable store after `LPUSH a x` on the empty store -/
 def findingStore : MState := (Api.push true {} 0 [97] [[120]]).1
 
-/-- FINDING: `MGET a b` where `a` holds a list: the closure writes `*2` and then panics; the reply
-    `*2, -WRONGTYPE` is an incomplete array -/
-theorem one_reply_mGet_finding_reply :
-    ∃ b, Handler.mGet [[97], [98]] = HRes.exec b ∧
-      replyOf (b findingStore 0 none) = [Tok.arr 2, Tok.err 1] :=
+/-- `MGET a b` where `a` holds a list: nothing is written before the panic, the reply is the single
+    recovered error -/
+example : ∃ b, Handler.mGet [[97], [98]] = HRes.exec b ∧
+    replyOf (b findingStore 0 none) = [Tok.err 1] :=
   ⟨_, rfl, by decide⟩
 
-theorem one_reply_mGet_finding :
-    ∃ b, Handler.mGet [[97], [98]] = HRes.exec b ∧ oneValue (replyOf (b findingStore 0 none)) = false := by
-  obtain ⟨b, hb, hr⟩ := one_reply_mGet_finding_reply
-  refine ⟨b, hb, ?_⟩
-  rw [hr]
-  exact oneValue_arr_short 2 [Tok.err 1] (by decide)
-
-/-- hence the full-strength statement fails for MGET -/
-theorem not_one_reply_mGet : ¬ OneReply (Handler.mGet [[97], [98]]) := by
-  intro h
-  obtain ⟨b, hb, hr⟩ := one_reply_mGet_finding
-  rw [hb] at h
-  have := h findingStore 0 none
-  rw [hr] at this
-  cases this
-
-/-- the witness is inside the region -/
-theorem finding_in_region : ¬ MGetOK [[97], [98]] findingStore 0 := by decide
-
-/-- the last-key subtlety: `MGET b a` with the wrong-typed key LAST is one value (`*2, $-1, -WRONGTYPE`) -/
-theorem mGet_last_key_panics_ok :
-    ∃ b, Handler.mGet [[98], [97]] = HRes.exec b ∧
-      replyOf (b findingStore 0 none) = [Tok.arr 2, Tok.nullBulk, Tok.err 1] ∧
-      oneValue (replyOf (b findingStore 0 none)) = true := by
-  refine ⟨_, rfl, by decide, ?_⟩
-  exact (mGet_go_oneValue_iff 0 [[98], [97]] findingStore).2 (by decide)
+/-- `MGET b c` on the empty store: `*2, $-1, $-1` -/
+example : ∃ b, Handler.mGet [[98], [99]] = HRes.exec b ∧
+    replyOf (b {} 0 none) = [Tok.arr 2, Tok.nullBulk, Tok.nullBulk] :=
+  ⟨_, rfl, by decide⟩
 
 /-! ## the dispatch table -/
 
 theorem table1_one_reply (name : String) (args : List Bytes) (r : HRes)
-    (h : Handler.table1 name args = some r) (hm : name ≠ "MGET") : OneReply r := by
+    (h : Handler.table1 name args = some r) : OneReply r := by
   unfold Handler.table1 at h
   split at h <;> first
-    | (exact absurd rfl hm)
     | (cases h; done)
     | (cases h
        first
@@ -349,27 +227,12 @@ theorem table1_one_reply (name : String) (args : List Bytes) (r : HRes)
        | exact one_reply_persist _ | exact one_reply_rename _ | exact one_reply_renameNx _ | exact one_reply_typ _
        | exact one_reply_scan _ | exact one_reply_setString _ | exact one_reply_mSet _
        | exact one_reply_appendString _ | exact one_reply_setex _ | exact one_reply_setnx _
-       | exact one_reply_getString _ | exact one_reply_getSet _ | exact one_reply_setRange _
+       | exact one_reply_getString _ | exact one_reply_getSet _ | exact one_reply_mGet _ | exact one_reply_setRange _
        | exact one_reply_getRange _ | exact one_reply_strLen _ | exact one_reply_incrDecr _ _
        | exact one_reply_incrDecrBy _ _ | exact one_reply_incrByFloat _ | exact one_reply_setBit _
        | exact one_reply_getBit _ | exact one_reply_bitCount _)
 
-/-- MGET through the table: one reply on the complement of the finding region -/
-theorem table1_one_reply_mGet (args : List Bytes) (r : HRes)
-    (h : Handler.table1 "MGET" args = some r) : OneReplyOn (MGetOK args) r := by
-  have : Handler.table1 "MGET" args = some (Handler.mGet args) := rfl
-  rw [this] at h
-  cases h
-  exact one_reply_mGet_partial args
-
-/-- non-vacuity of the MGET region complement: an all-absent MGET on the empty store, and the
-    wrong-typed-key-last case -/
-example : MGetOK [[98], [99]] {} 0 := by decide
-example : MGetOK [[98], [97]] findingStore 0 := by decide
-
-/- UNPROVED: nothing. Every handler of `Handler.table1` has its `one_reply_<handler>` theorem at full
-   strength except `mGet`, which is false in the model (`one_reply_mGet_finding`, `not_one_reply_mGet`)
-   and is proved on the exact complement of the finding region (`one_reply_mGet_partial`,
-   `mGet_go_oneValue_iff`). -/
+/- UNPROVED: nothing. Every handler of `Handler.table1`, MGET included, has its `one_reply_<handler>`
+   theorem at full strength. -/
 
 end NodisVerif.Proofs.C16Handlers
